@@ -731,6 +731,84 @@ fn check_wrappers(ctx: &Ctx, c: &mut Collector) {
             }
         }};
     }
+    // f64 Rgb and float Luma / Alpha wrappers: bitwise equal to the component functions
+    macro_rules! wrap64 {
+        ($name:literal, $std:ty, $tf:ty) => {{
+            for &r32 in &lat {
+                let (r, g, b) = (r32 as f64, (r32 as f64) * 0.5, 1.0 - r32 as f64);
+                let enc: Rgb<$std, f64> = Rgb::new(r, g, b);
+                let lin = enc.into_linear::<f64>();
+                let want = [<$tf as IntoLinear<f64, f64>>::into_linear(r), <$tf as IntoLinear<f64, f64>>::into_linear(g), <$tf as IntoLinear<f64, f64>>::into_linear(b)];
+                if [lin.red.to_bits(), lin.green.to_bits(), lin.blue.to_bits()] != [want[0].to_bits(), want[1].to_bits(), want[2].to_bits()] {
+                    c.violation(&format!("C05/wrapper/{}/f64/into_linear", $name), 1.0, || json!({"sub": "wrapper", "std": $name, "input": [r, g, b], "observed": [lin.red, lin.green, lin.blue], "expected": want}));
+                }
+                let lin_in: Rgb<palette::encoding::Linear<<$std as palette::rgb::RgbStandard>::Space>, f64> = Rgb::new(r, g, b);
+                let e2: Rgb<$std, f64> = Rgb::from_linear(lin_in);
+                let want = [<$tf as FromLinear<f64, f64>>::from_linear(r), <$tf as FromLinear<f64, f64>>::from_linear(g), <$tf as FromLinear<f64, f64>>::from_linear(b)];
+                if [e2.red.to_bits(), e2.green.to_bits(), e2.blue.to_bits()] != [want[0].to_bits(), want[1].to_bits(), want[2].to_bits()] {
+                    c.violation(&format!("C05/wrapper/{}/f64/from_linear", $name), 1.0, || json!({"sub": "wrapper", "std": $name, "input": [r, g, b], "observed": [e2.red, e2.green, e2.blue], "expected": want}));
+                }
+                // Alpha wrapper: colour as above, alpha passed through untouched
+                let ea: palette::Alpha<Rgb<$std, f32>, f32> = palette::Alpha { color: Rgb::new(r32, r32 * 0.5, 1.0 - r32), alpha: 0.3 };
+                let la = ea.into_linear::<f32, f32>();
+                let w32 = [<$tf as IntoLinear<f32, f32>>::into_linear(r32), <$tf as IntoLinear<f32, f32>>::into_linear(r32 * 0.5), <$tf as IntoLinear<f32, f32>>::into_linear(1.0 - r32)];
+                if [la.color.red.to_bits(), la.color.green.to_bits(), la.color.blue.to_bits()] != [w32[0].to_bits(), w32[1].to_bits(), w32[2].to_bits()] || la.alpha.to_bits() != 0.3f32.to_bits() {
+                    c.violation(&format!("C05/wrapper/{}/alpha/into_linear", $name), 1.0, || json!({"sub": "wrapper", "std": $name, "input": [hex32(r32)], "observed": [la.color.red, la.color.green, la.color.blue, la.alpha], "expected": [w32[0], w32[1], w32[2], 0.3]}));
+                }
+                let back = palette::Alpha::<Rgb<$std, f32>, f32>::from_linear(la);
+                let w2 = [<$tf as FromLinear<f32, f32>>::from_linear(w32[0]), <$tf as FromLinear<f32, f32>>::from_linear(w32[1]), <$tf as FromLinear<f32, f32>>::from_linear(w32[2])];
+                if [back.color.red.to_bits(), back.color.green.to_bits(), back.color.blue.to_bits()] != [w2[0].to_bits(), w2[1].to_bits(), w2[2].to_bits()] || back.alpha.to_bits() != 0.3f32.to_bits() {
+                    c.violation(&format!("C05/wrapper/{}/alpha/from_linear", $name), 1.0, || json!({"sub": "wrapper", "std": $name, "input": [hex32(r32)], "observed": [back.color.red, back.color.green, back.color.blue, back.alpha], "expected": [w2[0], w2[1], w2[2], 0.3]}));
+                }
+                n += 4;
+            }
+        }};
+    }
+    macro_rules! wrap_luma {
+        ($name:literal, $std:ty, $tf:ty) => {{
+            use palette::luma::Luma;
+            for &l in &lat {
+                let enc: Luma<$std, f32> = Luma::new(l);
+                let lin = enc.into_linear::<f32>();
+                let want = <$tf as IntoLinear<f32, f32>>::into_linear(l);
+                if lin.luma.to_bits() != want.to_bits() {
+                    c.violation(&format!("C05/wrapper/Luma<{}>/into_linear", $name), 1.0, || json!({"sub": "wrapper", "std": $name, "input": [hex32(l)], "observed": lin.luma, "expected": want}));
+                }
+                let lin_in: Luma<palette::encoding::Linear<<$std as palette::luma::LumaStandard>::WhitePoint>, f32> = Luma::new(l);
+                let e2: Luma<$std, f32> = Luma::from_linear(lin_in);
+                let want2 = <$tf as FromLinear<f32, f32>>::from_linear(l);
+                if e2.luma.to_bits() != want2.to_bits() {
+                    c.violation(&format!("C05/wrapper/Luma<{}>/from_linear", $name), 1.0, || json!({"sub": "wrapper", "std": $name, "input": [hex32(l)], "observed": e2.luma, "expected": want2}));
+                }
+                let re: Luma<$std, f32> = lin_in.into_encoding::<f32, $std>();
+                if re.luma.to_bits() != want2.to_bits() {
+                    c.violation(&format!("C05/wrapper/Luma<{}>/into_encoding", $name), 1.0, || json!({"sub": "wrapper", "std": $name, "input": [hex32(l)], "observed": re.luma, "expected": want2}));
+                }
+                let fe = Luma::<palette::encoding::Linear<<$std as palette::luma::LumaStandard>::WhitePoint>, f32>::from_encoding::<f32, $std>(enc);
+                if fe.luma.to_bits() != want.to_bits() {
+                    c.violation(&format!("C05/wrapper/Luma<{}>/from_encoding", $name), 1.0, || json!({"sub": "wrapper", "std": $name, "input": [hex32(l)], "observed": fe.luma, "expected": want}));
+                }
+                let l64 = l as f64;
+                let enc64: Luma<$std, f64> = Luma::new(l64);
+                let lin64 = enc64.into_linear::<f64>();
+                let want64 = <$tf as IntoLinear<f64, f64>>::into_linear(l64);
+                if lin64.luma.to_bits() != want64.to_bits() {
+                    c.violation(&format!("C05/wrapper/Luma<{}>/f64/into_linear", $name), 1.0, || json!({"sub": "wrapper", "std": $name, "input": [l64], "observed": lin64.luma, "expected": want64}));
+                }
+                n += 5;
+            }
+        }};
+    }
+    wrap64!("Srgb", encoding::Srgb, encoding::Srgb);
+    wrap64!("Rec2020", encoding::Rec2020, encoding::RecOetf);
+    wrap64!("AdobeRgb", encoding::AdobeRgb, encoding::AdobeRgb);
+    wrap64!("DciP3", encoding::DciP3, encoding::P3Gamma);
+    wrap64!("ProPhotoRgb", encoding::ProPhotoRgb, encoding::ProPhotoRgb);
+    wrap_luma!("Srgb", encoding::Srgb, encoding::Srgb);
+    wrap_luma!("Rec709", encoding::Rec709, encoding::RecOetf);
+    wrap_luma!("AdobeRgb", encoding::AdobeRgb, encoding::AdobeRgb);
+    wrap_luma!("DciP3", encoding::DciP3, encoding::P3Gamma);
+    wrap_luma!("ProPhotoRgb", encoding::ProPhotoRgb, encoding::ProPhotoRgb);
     wrap!("Srgb", encoding::Srgb, encoding::Srgb);
     wrap!("Rec709", encoding::Rec709, encoding::RecOetf);
     wrap!("Rec2020", encoding::Rec2020, encoding::RecOetf);
